@@ -643,6 +643,108 @@ def mul_semantics(f):
         return None, None, '%s: %s' % (type(ex).__name__, ex)
 
 
+# ---------------------------------------------------------------- Dyadic arithmetic evaluated on a boundary-rich finite domain (round 2)
+
+def _dy(val, exp, neg=False, approx=False):
+    return {'__struct__': DY, 'flags': (1 if neg else 0) | (2 if approx else 0), 'exp': exp, 'val': val}
+
+
+def _dy_value(d):
+    from fractions import Fraction as Fr
+    return (-1 if d['flags'] & 1 else 1) * Fr(d['val']) * Fr(2) ** d['exp']
+
+
+def _dy_call(facts, key, args):
+    it = minirust.Interp(fuel=100000, facts=facts, inline=lambda c: 'scalar::dyadic' in c)
+    it.copy_types = {DY}
+    return it.local_call(key, args)
+
+
+def _dy_wellformed(d):
+    if not (isinstance(d, dict) and d.get('__struct__') == DY and all(isinstance(d.get(k), int) for k in ('flags', 'exp', 'val'))):
+        raise minirust.NoEval('not a Dyadic: %r' % (d,))
+    if d['val'] == 0:
+        return d['exp'] == 0 and not (d['flags'] & 1)
+    return (1 << 63) <= d['val'] < (1 << 64) and 0 <= d['flags'] < 4
+
+
+def dyadic_domain():
+    """normalised mantissas at the boundaries (one bit, lowest bit set, all bits set, a middle bit, top two bits) at exponents whose differences
+    cover no shift, small shifts, 63, 64 and more than 64 bits; both signs; zero"""
+    vals = (1 << 63, (1 << 63) | 1, (1 << 64) - 1, (1 << 63) | (1 << 31), (3 << 62))
+    exps = (-70, -64, -63, -1, 0, 2)
+    out = [_dy(0, 0)]
+    for v in vals:
+        for e in exps:
+            for neg in (False, True):
+                out.append(_dy(v, e, neg))
+    return out
+
+
+def ev_dyadic(facts):
+    """Add / Sub / Mul / Neg / cmp on every pair of the domain, against exact rational arithmetic.  -> ({clause: (ok, counterexample)}, evaluations)"""
+    from fractions import Fraction as Fr
+    ADDK, MULK = '<%s as std::ops::Add>::add' % DY, '<%s as std::ops::Mul>::mul' % DY
+    SUBK, NEGK, CMPK = '<%s as std::ops::Sub>::sub' % DY, '<%s as std::ops::Neg>::neg' % DY, '<%s as std::cmp::Ord>::cmp' % DY
+    res = dict((k, [True, '']) for k in ('exact-unless-flagged', 'representation', 'taint', 'error-bound', 'order', 'neg', 'operands-untouched'))
+    n = 0
+
+    def fail(k, msg):
+        if res[k][0]:
+            res[k] = [False, msg]
+
+    def show(d):
+        return '%s%d*2^%d%s' % ('-' if d['flags'] & 1 else '', d['val'], d['exp'], '~' if d['flags'] & 2 else '')
+    dom = dyadic_domain()
+    for a in dom:
+        na = _dy_call(facts, NEGK, [dict(a)])
+        n += 1
+        if not _dy_wellformed(na) or _dy_value(na) != -_dy_value(a) or (na['flags'] & 2):
+            fail('neg', '-(%s) = %s' % (show(a), show(na)))
+        for b in dom:
+            a0, b0 = dict(a), dict(b)
+            for key, name, exact in ((ADDK, '+', _dy_value(a) + _dy_value(b)), (SUBK, '-', _dy_value(a) - _dy_value(b)), (MULK, '*', _dy_value(a) * _dy_value(b))):
+                r = _dy_call(facts, key, [a0, b0])
+                n += 1
+                if a0 != a or b0 != b:
+                    fail('operands-untouched', '%s %s %s modifies an operand' % (show(a), name, show(b)))
+                if not _dy_wellformed(r):
+                    fail('representation', '%s %s %s = %s is not normalised (a non-zero mantissa has its top bit set, zero has exponent 0 and no sign)' % (show(a), name, show(b), show(r)))
+                    continue
+                got = _dy_value(r)
+                if not (r['flags'] & 2) and got != exact:
+                    fail('exact-unless-flagged', '%s %s %s = %s is not flagged approximate but the exact result is %s' % (show(a), name, show(b), show(r), exact))
+                if got != exact:
+                    # truncation may lose less than one unit of the larger operand's last place (sums) / of the result's last place (products)
+                    if name == '*':
+                        bound = abs(exact) / (1 << 62)
+                    else:
+                        bound = Fr(2) ** (max(a['exp'] if a['val'] else -10 ** 6, b['exp'] if b['val'] else -10 ** 6) + 2)
+                    if abs(got - exact) > bound:
+                        fail('error-bound', '%s %s %s = %s is off by %s (more than the truncation can explain)' % (show(a), name, show(b), show(r), float(abs(got - exact))))
+            o = _dy_call(facts, CMPK, [dict(a), dict(b)])
+            n += 1
+            va, vb = _dy_value(a), _dy_value(b)
+            want = 'Less' if va < vb else 'Greater' if va > vb else 'Equal'
+            if not (isinstance(o, tuple) and str(o[1]).rsplit('::', 1)[-1] == want):
+                fail('order', 'cmp(%s, %s) = %s, the reals say %s' % (show(a), show(b), o[1].rsplit('::', 1)[-1] if isinstance(o, tuple) else o, want))
+    # taint: an approximate operand makes the result approximate (a product with an exact zero is exactly zero)
+    reps = [d for d in dom if d['exp'] in (0, -64)][:9] + [dom[0]]
+    for a in reps:
+        for b in dom[::3]:
+            for key, name in ((ADDK, '+'), (SUBK, '-'), (MULK, '*')):
+                for xa, xb in ((True, False), (False, True), (True, True)):
+                    a1, b1 = dict(a), dict(b)
+                    a1['flags'] |= 2 if xa else 0
+                    b1['flags'] |= 2 if xb else 0
+                    r = _dy_call(facts, key, [a1, b1])
+                    n += 1
+                    exact_zero_factor = name == '*' and ((not xa and a['val'] == 0) or (not xb and b['val'] == 0))
+                    if not (r['flags'] & 2) and not exact_zero_factor:
+                        fail('taint', '%s %s %s = %s is not flagged approximate although an operand is' % (show(a1), name, show(b1), show(r)))
+    return dict((k, tuple(v)) for k, v in res.items()), n
+
+
 MUL_REF = {(i, j): ((i + j) % 4, -1 if (i + j) >= 4 else 1) for i in range(4) for j in range(4)}
 
 
@@ -763,7 +865,25 @@ def _run_own(ck):
                'D3 no u64->i64 cast of a full-width mantissa on the call path from a Scalar4/Dyadic to f64/Complex<f64>',
                'D4 representation invariant: Dyadic literals only in dyadic.rs, all-zero or normalised before use; fields private; Scalar4 array built only in scalar.rs',
                'D5 operator consistency (Dyadic 7 + Scalar4 20 impls incl. Sum/Product) and literal tables by value: conj, the Z[omega] product index/sign table, From<Phase> unit placement and its denominator guard, sqrt2_pow, both TryFrom<..> for Complex')
-    ck.not_decided('exactness of the 64-bit mantissa arithmetic itself (carry, 128-bit product, alignment values)', 'accuracy to 1e-12', 'float round-trip', 'exact_phase_and_sqrt2_pow recognition')
+    ck.not_decided('Dyadic values outside the boundary domain (the structural rules cover all paths)', 'accuracy to 1e-12 of the float conversion', 'float round-trip', 'exact_phase_and_sqrt2_pow recognition')
+    # ---- D0 (round 2): Dyadic arithmetic and order, evaluated on a boundary-rich finite domain against exact rationals
+    try:
+        sem, nev = ev_dyadic(facts)
+        msgs = {'exact-unless-flagged': 'a result that is not flagged approximate must equal the exact value',
+                'representation': 'every result keeps the representation invariant the other operations rely on',
+                'taint': 'an approximate operand makes the result approximate',
+                'error-bound': 'an approximate result is off by no more than the truncation explains',
+                'order': 'cmp agrees with the order of the reals',
+                'neg': 'negation is exact and keeps the representation',
+                'operands-untouched': 'operands are values'}
+        for name, (ok, cex) in sorted(sem.items()):
+            ck.ob('E3-dyadic', name, ok, ck.site(ADD if name not in ('order', 'neg') else CMP), '%s: %s' % (msgs[name], cex), sample={'evaluations': nev})
+        ck.floor('E3-dyadic-evaluations', nev, 15000)
+        ck.note('Dyadic: %d evaluations of add / sub / mul / neg / cmp over a domain of %d boundary values' % (nev, len(dyadic_domain())))
+    except minirust.Panics as ex:
+        ck.ob('E3-dyadic', 'no-panic', False, ck.site(ADD), 'some pair of boundary values makes the arithmetic panic (overflow checks are on in debug builds): %s' % ex)
+    except (minirust.NoEval, minirust.Proceed, TypeError, KeyError, IndexError, AttributeError, ValueError) as ex:
+        ck.ob3('E3-dyadic', 'evaluable', None, ck.site(ADD), 'the Dyadic arithmetic is not evaluable by the interpreter (%s): the value-level clauses are not decided (the structural rules below still are)' % ex)
     # ---- D2 order
     f = ck.fn(CMP)
     res = d2_order(f)
